@@ -121,7 +121,7 @@ fn core_word_div(xs: &mut State) -> Xresult {
             if *b == 0 {
                 Err(Xerr::DivisionByZero)
             } else {
-                let c = Cell::from(a / *b);
+                let c = Cell::from(a.wrapping_div(*b));
                 xs.push_data(c)
             }
         }
